@@ -3,7 +3,8 @@
 (* (records from harness/server/vf_pull_test.go): final[b] is what is at the final   *)
 (* name of published blob b (absent / good = right SHA-256 / bad), part[b] the        *)
 (* download state left for it, man what the name resolves to (absent / old / new /   *)
-(* torn).                                                                            *)
+(* torn).  "twin" records: a second pull of another name with the same layers that   *)
+(* ran concurrently with the attempt and joined its downloads.                       *)
 (* VFBAD: the property is violated on the real store.  VFDRIFT: the real PullModel    *)
 (* did something else than PullCore predicts for this store and these faults (with    *)
 (* the constants of the cfg: the code as it is).                                     *)
@@ -38,13 +39,20 @@ Step == /\ l <= Len(Trace) /\ l' = l + 1
              ELSE IF e.ev = "attempt" THEN
                   LET flags == Attempt(e)
                       p == AttemptResult(m, FOf(e), dup)
-                      d == Drift(e, p) IN
+                      d == IF e.twin THEN {} ELSE Drift(e, p) IN      \* a concurrent twin pull is outside PullCore's prediction
                   /\ (flags # {}) => PrintT(<<"VFBAD", l, e.t, flags>>)
                   /\ (d # {}) => PrintT(<<"VFDRIFT", l, e.t, d>>)
                   /\ nbad' = IF flags # {} THEN nbad + 1 ELSE nbad
                   \* follow the real store, so that one difference does not cascade
                   /\ m' = IF e.man \in {"absent", "old", "new"} THEN Obs(e) ELSE [Obs(e) EXCEPT !.man = m.man]
                   /\ dup' = dup
+             ELSE IF e.ev = "twin" THEN      \* the second, concurrent pull of another name with the same layers
+                  LET flags == (IF e.err = "" /\ (e.man # "new" \/ Rng(e.final) # {"good"}) THEN {"success-with-missing-or-corrupt-layer", "joined-pull"} ELSE {})
+                          \cup (IF e.man = "new" /\ Rng(e.final) # {"good"} THEN {"name-resolves-to-incomplete-model", "joined-pull"} ELSE {})
+                          \cup (IF e.man = "torn" THEN {"name-resolves-to-unreadable-or-foreign-manifest", "joined-pull"} ELSE {}) IN
+                  /\ (flags # {}) => PrintT(<<"VFBAD", l, e.t, flags>>)
+                  /\ nbad' = IF flags # {} THEN nbad + 1 ELSE nbad
+                  /\ m' = m /\ dup' = dup
              ELSE LET flags == IF e.ev = "crash" THEN {"registry-response-crashed-the-server"} ELSE {} IN
                   /\ (flags # {}) => PrintT(<<"VFBAD", l, e.t, flags>>)
                   /\ nbad' = IF flags # {} THEN nbad + 1 ELSE nbad
